@@ -214,5 +214,5 @@ func (p *Prog) findPkg(path string) *types.Package {
 
 // InPkg reports whether fn is a source function of the analysed package.
 func (p *Prog) InPkg(fn *ssa.Function) bool {
-	return fn != nil && fn.Blocks != nil && (fn.Pkg == p.SPkg || (fn.Parent() != nil && p.InPkg(fn.Parent())))
+	return fn != nil && fn.Blocks != nil && (fn.Pkg == p.SPkg || (fn.Parent() != nil && p.InPkg(fn.Parent())) || (fn.Origin() != nil && fn.Origin().Pkg == p.SPkg))
 }
